@@ -141,6 +141,15 @@ def lastWord (t : Table) (input : List Nat) (st : St) : St :=
   if st.pos > 0 && isSpace t (inAt input (st.pos - 1)) && st.transOpcode != CTO_JoinableWord then
     { st with lastIn := st.pos, lastOut := st.out.cells.length } else st
 
+/-- the context rule of this iteration, if any: the one `for_selectRule` picked in a chain, else (with `posIncremented`
+    on) the first rule of `forPassRules[1]` whose test succeeds (`findForPassRule`) -/
+def foundC (t : Table) (s : SelC) (posInc : Bool) (vars : List Nat) (input : List Nat) (pos : Nat) : Pass.Sel :=
+  match s.ctx with
+  | some (r, m, ic) => .rule r m ic
+  | none =>
+    if posInc then Pass.select ⟨t, false, vars⟩ false 1 (Pass.rulesOf t (t.forPassChain 1)) input pos
+    else .none
+
 /-- one iteration of the main loop with context rules -/
 def stepC (t : Table) (mode : Nat) (input : List Nat) (maxlen : Nat) (sc : StC) : StC × Bool :=
   let st := lastWord t input sc.st
@@ -155,13 +164,7 @@ def stepC (t : Table) (mode : Nat) (input : List Nat) (maxlen : Nat) (sc : StC) 
   | some o1 =>
     let st := { st with out := o1 }
     -- `if (transOpcode == CTO_Context || (posIncremented && findForPassRule(...)))`
-    let found : Pass.Sel :=
-      match s.ctx with
-      | some (r, m, ic) => .rule r m ic
-      | none =>
-        if sc.posInc then Pass.select ⟨t, false, sc.vars⟩ false 1 (Pass.rulesOf t (t.forPassChain 1)) input st.pos
-        else .none
-    match found with
+    match foundC t s sc.posInc sc.vars input st.pos with
     | .unsupported => ({ sc with st := st, unsupported := true }, true)
     | .rule r m ic =>
       let st := { st with transOpcode := CTO_Context, applied := st.applied ++ [some r] }
